@@ -38,6 +38,14 @@ type IsoJob struct {
 	Seed uint64 `json:"seed"`
 }
 
+// histRef is a prefix of a worker's execution history.
+type histRef struct {
+	h *[]IsoJob
+	n int
+}
+
+func (r histRef) list() []IsoJob { return append([]IsoJob(nil), (*r.h)[:r.n]...) }
+
 // IsoSpec is the replayable form of an isolation violation: the main scenario gives ExpectDigest when
 // it is the first thing a fresh process executes, and another digest after the warm-up scenarios.
 type IsoSpec struct {
@@ -535,7 +543,7 @@ func Supervise(c *Check, o Opts) int {
 	found := map[string]*foundViolation{}
 	infra := []string{}
 	warnings := []string{}
-	histOf := map[uint64][]IsoJob{} // seed -> what its worker had executed before it
+	histOf := map[uint64]histRef{} // seed -> what its worker had executed before it
 	isoSpecs := map[uint64]IsoSpec{}
 	checkHash := HashStr(c.ID)
 
@@ -554,12 +562,16 @@ func Supervise(c *Check, o Opts) int {
 				return
 			}
 			defer func() { p.kill() }()
-			var hist []IsoJob
+			// what this worker process has executed so far (restarts with the process); a scenario's
+			// warm-up list is a prefix of it, remembered as (history, length)
+			hist := &[]IsoJob{}
 			for j := range jobs {
-				mu.Lock()
-				histOf[j.seed] = append([]IsoJob(nil), hist...)
-				mu.Unlock()
-				hist = append(hist, IsoJob{Idx: j.idx, Seed: j.seed})
+				if c.Isolation > 0 {
+					mu.Lock()
+					histOf[j.seed] = histRef{h: hist, n: len(*hist)}
+					mu.Unlock()
+					*hist = append(*hist, IsoJob{Idx: j.idx, Seed: j.seed})
+				}
 				req := workerReq{Op: "gen", Seed: j.seed, Idx: j.idx, Tier: o.Tier, WantSc: j.idx < 3 || j.idx == 20}
 				oc := p.call(req, watchdog)
 				if oc.died {
@@ -586,7 +598,7 @@ func Supervise(c *Check, o Opts) int {
 						}
 					}
 					p, err = spawn(c, raceDir)
-					hist = nil
+					hist = &[]IsoJob{}
 					if err != nil {
 						mu.Lock()
 						infra = append(infra, "respawn: "+err.Error())
@@ -675,7 +687,7 @@ func Supervise(c *Check, o Opts) int {
 	if c.Isolation > 0 && agg.runs > 0 {
 		var cand []uint64
 		for seed, h := range histOf {
-			if len(h) >= 1 {
+			if h.n >= 1 {
 				if _, ok := agg.digests[seed]; ok {
 					cand = append(cand, seed)
 				}
@@ -711,7 +723,7 @@ func Supervise(c *Check, o Opts) int {
 				continue
 			}
 			// confirm with the explicit warm-up list in one fresh process
-			spec := IsoSpec{Tier: o.Tier, Warm: histOf[seed], Main: IsoJob{Idx: idxOf[seed], Seed: seed}, ExpectDigest: oc.res.Digest}
+			spec := IsoSpec{Tier: o.Tier, Warm: histOf[seed].list(), Main: IsoJob{Idx: idxOf[seed], Seed: seed}, ExpectDigest: oc.res.Digest}
 			if got, ok := runIso(c, raceDir, spec, 5*watchdog); ok && got != spec.ExpectDigest {
 				spec = minimiseIso(c, raceDir, spec, watchdog)
 				sc := MustJSON(spec)
